@@ -213,6 +213,26 @@ func forwardOrderShape(cs []chg) bool {
 	return false
 }
 
+// depthAbove counts the distinct heights above h
+func depthAbove(bs []blk, h uint32) int {
+	seen := map[uint32]bool{}
+	for _, b := range bs {
+		if b.h > h {
+			seen[b.h] = true
+		}
+	}
+	return len(seen)
+}
+
+func hasDup(bs []blk) bool {
+	for i := 1; i < len(bs); i++ {
+		if bs[i].h == bs[i-1].h {
+			return true
+		}
+	}
+	return false
+}
+
 func consecutive(bs []blk) bool {
 	for i := 1; i < len(bs); i++ {
 		if bs[i].h != bs[i-1].h+1 {
@@ -267,8 +287,9 @@ func oracle(t []string, out string) *hx.Violation {
 	case "app":
 		c := chg{t[2], int(atoi(t[3])), atoi(t[4])}
 		if h == 0 {
-			// temporary change: only judged when nothing is pending, at the tip
-			if s.pend != nil || s.seeked || s.tempDone {
+			// temporary change: judged at the tip, also while a height is pending (Append(h), Append(0),
+			// Commit, Append(h) …: the next Append of the pending height has to undo it)
+			if s.seeked || s.tempDone {
 				s.off = true
 				return nil
 			}
@@ -305,11 +326,11 @@ func oracle(t []string, out string) *hx.Violation {
 			return nil
 		}
 		if s.pend == nil {
-			if h <= s.tip() {
+			if h < s.tip() || (h == s.tip() && s.rolledBackSinceCommit) {
 				s.off = true
 				return nil
 			}
-			s.pend = &blk{h: h}
+			s.pend = &blk{h: h} // h == tip: the same height is committed once more (one logical height)
 		}
 		if h != s.pend.h || res != "ok" {
 			s.off = true
@@ -319,7 +340,7 @@ func oracle(t []string, out string) *hx.Violation {
 		return nil
 	case "commit":
 		if len(s.temp) > 0 {
-			if s.tempDone || s.pend != nil {
+			if s.tempDone {
 				s.off = true
 				return nil
 			}
@@ -334,7 +355,7 @@ func oracle(t []string, out string) *hx.Violation {
 		b := s.pend
 		if b == nil {
 			b = &blk{h: h}
-			if h <= s.tip() {
+			if h < s.tip() || (h == s.tip() && (s.rolledBackSinceCommit || len(s.chain) == 0)) {
 				s.off = true
 				return nil
 			}
@@ -344,11 +365,20 @@ func oracle(t []string, out string) *hx.Violation {
 			return nil
 		}
 		wasSeeked := s.seeked
+		sameH := len(s.chain) > 0 && h == s.tip()
 		s.pend = nil
-		s.chain = append(s.chain, *b)
-		if s.retained < s.cap {
+		// capacity counts distinct heights: a full history evicts its oldest height first
+		if s.retained >= s.cap {
+			if sameH && s.retained == 1 {
+				s.off = true // capacity 1 evicts the earlier entry of this very height: outside the domain
+				return nil
+			}
+			s.retained--
+		}
+		if !sameH {
 			s.retained++
 		}
+		s.chain = append(s.chain, *b)
 		s.seeked, s.view = false, h
 		s.rolledBackSinceCommit = false
 		exp := replay(s.chain, h, nil)
@@ -372,12 +402,7 @@ func oracle(t []string, out string) *hx.Violation {
 			}
 			return nil
 		}
-		depth := 0
-		for _, b := range s.chain {
-			if b.h > h {
-				depth++
-			}
-		}
+		depth := depthAbove(s.chain, h)
 		if depth > s.retained {
 			s.off = true // beyond capacity: not promised
 			return nil
@@ -416,12 +441,11 @@ func oracle(t []string, out string) *hx.Violation {
 			s.off = true
 			return nil
 		}
-		depth := 0
-		for _, b := range s.chain {
-			if b.h > h {
-				depth++
-			}
+		if hasDup(s.chain) {
+			s.off = true // SeekTo counts entries: a height committed twice is outside its domain
+			return nil
 		}
+		depth := depthAbove(s.chain, h)
 		if depth > s.retained {
 			return nil // beyond capacity: an error is the right answer, nothing promised
 		}
@@ -468,12 +492,10 @@ func oracle(t []string, out string) *hx.Violation {
 			}
 			return nil
 		}
-		depth := 0
+		depth := depthAbove(s.chain, h)
 		n := 0
 		for _, b := range s.chain {
-			if b.h > h {
-				depth++
-			} else {
+			if b.h <= h {
 				n++
 			}
 		}
@@ -570,6 +592,7 @@ func gen(g *hx.Gen) {
 		step := uint32(1)
 		gappy := r.Chance(15) // strictly increasing but not consecutive: rollbacks only
 		retained := 0
+		dupUsed, seekUsed := false, false
 		var heightsOn []uint32
 		nops := 4 + r.Intn(30)
 		for i := 0; i < nops; i++ {
@@ -582,6 +605,29 @@ func gen(g *hx.Gen) {
 				heightsOn = append(heightsOn, gs.height)
 				if retained < capv {
 					retained++
+				}
+				if capv >= 2 && !seekUsed && r.Chance(20) {
+					// the same height committed once more (Arbiters commits its History twice per block);
+					// a full history evicts its oldest height first, like any other Commit
+					if retained >= capv {
+						retained--
+					}
+					gs.block(0, true)
+					dupUsed = true
+				}
+				if r.Chance(8) {
+					// a temporary change while the next height is already pending
+					hh := gs.height + 1
+					g.Emit("app %d add %d %d", hh, r.Intn(4), int64(r.Intn(199)-99))
+					g.Emit("app 0 add %d %d", r.Intn(4), int64(r.Intn(199)-99))
+					g.Emit("commit %d", hh)
+					g.Emit("app %d add %d %d", hh, r.Intn(4), int64(r.Intn(199)-99))
+					g.Emit("commit %d", hh)
+					gs.height = hh
+					heightsOn = append(heightsOn, hh)
+					if retained < capv {
+						retained++
+					}
 				}
 			case c < 7: // rollback within capacity
 				d := 1 + r.Intn(retained+1)
@@ -607,10 +653,11 @@ func gen(g *hx.Gen) {
 				heightsOn = heightsOn[:len(heightsOn)-d]
 				retained -= d
 				gs.height = target
-			case c < 9 && !gappy: // seek back, then return (seek to tip / commit / rbseek)
+			case c < 9 && !gappy && !dupUsed: // seek back, then return (seek to tip / commit / rbseek)
 				if retained == 0 {
 					continue
 				}
+				seekUsed = true
 				// a rollback leaves seekHeight stale; the node always commits in between
 				gs.block(1, true)
 				heightsOn = append(heightsOn, gs.height)
@@ -655,6 +702,9 @@ func gen(g *hx.Gen) {
 					g.Emit("app 0 %s %d %d", kind, k, int64(r.Intn(199)-99))
 				}
 				g.Emit("commit %d", gs.height+1)
+				if r.Chance(25) {
+					g.Emit("rbseek %d", gs.height) // exactly the best height: a no-op, the temporary changes stay pending
+				}
 				gs.afterTemp = true
 				if r.Chance(30) && retained > 0 {
 					gs.afterTemp = false
